@@ -40,7 +40,7 @@ Lemma gen_prov_changed_eq fuel w st c :
   notify fuel w st c =
   mkState (st_impl st) (st_cprov_of st) (st_cprovs st) (st_provs st)
           (filter (fun kp : ckey * nat =>
-                     negb (reaches fuel w st (fst (fst kp)) c && gen_prov_changed true true))
+                     negb (prov_depends fuel w st (fst kp) c && gen_prov_changed true true))
                   (st_cache st))
           (st_insts st).
 Proof.
